@@ -139,3 +139,22 @@
 ; ----- element addresses: idx(off, k) = off + k, kept as a symbol so that patterns over slice elements are arithmetic-free -----
 (declare-fun idx (Int Int) Int)
 (assert (forall ((o Int) (k Int)) (! (= (idx o k) (+ o k)) :pattern ((idx o k)))))
+
+; ----- polynomial evaluation as computed by vss.evaluatePolynomial (one-level unfolding, see framei) -----
+(declare-fun xpow (Int Int Int) Int)     ; x^n mod q by repeated multiplication
+(declare-fun xpowz (Int Int Int) Int)
+(assert (forall ((x Int) (n Int) (q Int)) (! (= (xpow x n q) (xpowz x n q)) :pattern ((xpow x n q)))))
+(assert (forall ((x Int) (n Int) (q Int)) (! (=> (<= n 0) (= (xpow x n q) 1)) :pattern ((xpow x n q)))))
+(assert (forall ((x Int) (n Int) (q Int)) (! (=> (> n 0) (= (xpow x n q) (mod (imul (xpowz x (- n 1) q) x) q))) :pattern ((xpow x n q)))))
+; polyv(R, o, n, B, x, q) = a_0 + sum_{1<=k<=n} a_k x^k reduced mod q at every step, a_k = B[R[idx(o,k)]]
+(declare-fun polyv ((Array Int Int) Int Int (Array Int Int) Int Int) Int)
+(declare-fun polyvz ((Array Int Int) Int Int (Array Int Int) Int Int) Int)
+(assert (forall ((r (Array Int Int)) (o Int) (n Int) (b (Array Int Int)) (x Int) (q Int)) (! (= (polyv r o n b x q) (polyvz r o n b x q)) :pattern ((polyv r o n b x q)))))
+(assert (forall ((r (Array Int Int)) (o Int) (n Int) (b (Array Int Int)) (x Int) (q Int)) (! (=> (<= n 0) (= (polyv r o n b x q) (select b (select r (idx o 0))))) :pattern ((polyv r o n b x q)))))
+(assert (forall ((r (Array Int Int)) (o Int) (n Int) (b (Array Int Int)) (x Int) (q Int)) (! (=> (> n 0) (= (polyv r o n b x q) (mod (+ (polyvz r o (- n 1) b x q) (imul (select b (select r (idx o n))) (xpow x n q))) q))) :pattern ((polyv r o n b x q)))))
+
+; ----- the two curve orders are prime: a product of non-multiples is a non-multiple (Euclid) -----
+(assert (forall ((a Int) (b Int)) (! (=> (and (not (= (mod a secpN) 0)) (not (= (mod b secpN) 0))) (not (= (mod (imul a b) secpN) 0))) :pattern ((mod (imul a b) secpN)))))
+(assert (forall ((a Int) (b Int)) (! (=> (and (not (= (mod a edN) 0)) (not (= (mod b edN) 0))) (not (= (mod (imul a b) edN) 0))) :pattern ((mod (imul a b) edN)))))
+(assert (= (bitlen secpN) 256))
+(assert (= (bitlen edN) 253))
